@@ -445,11 +445,10 @@ End LastRow.
 
 Hypothesis Hpsi : (psi_1b u < r)%nat \/ (psi_2e u < c)%nat.
 
-Theorem dist_value_is_dtw_value : dist_value u s1 s2 = dtw_value u s1 s2.
+(* whatever row the buffer holds at the end, if it holds the last matrix row the value read is the spec value *)
+Lemma final_value_spec cur : RowOK r cur -> final_value u s2 cur (wskip r) (ps_spec r) = dtw_value u s1 s2.
 Proof.
-  rewrite dtw_value_cands. unfold dist_value. cbv zeta. fold r c.
-  pose proof (rows_ok r (le_n _)) as HR. destruct (rows u s1 s2 r) as [[cur skv] ps].
-  destruct HR as (Hrow & Hs & Hps). subst skv ps.
+  intros Hrow. rewrite dtw_value_cands. unfold final_value. cbv zeta. fold r c.
   assert (Ei : S (r - 1) = r) by lia.
   replace (wskip r) with (sk (r - 1)) by (rewrite <- Ei at 2; reflexivity).
   rewrite <- Ei in Hrow.
@@ -513,6 +512,13 @@ Proof.
       * destruct Hpin as [H|(i & H1 & H2 & H3 & H4)]; [left; exact H|right].
         apply in_app_iff. left. apply in_candA. exists (r - 1 - i)%nat. repeat split; try lia.
         rewrite H4. f_equal. lia.
+Qed.
+
+Theorem dist_value_is_dtw_value : dist_value u s1 s2 = dtw_value u s1 s2.
+Proof.
+  unfold dist_value. fold r.
+  pose proof (rows_ok r (le_n _)) as HR. destruct (rows u s1 s2 r) as [[cur skv] ps].
+  destruct HR as (Hrow & Hs & Hps). subst skv ps. apply final_value_spec. exact Hrow.
 Qed.
 
 (* the model of the code, written after the code = the specification-level model *)
